@@ -2,7 +2,7 @@
    any operation sequence.  Statements only; every proof is `exact <lemma>`. *)
 From Coq Require Import ZArith List Bool Lia.
 From Sky Require Import Result PyList G_table M_Table S_Table P_TableBase P_TableOps P_TableOps2 P_TableOps3
-  P_Table P_TableRefine P_TableThm.
+  P_TableCtor P_Table P_TableRefine P_TableThm.
 Import ListNotations.
 Open Scope Z_scope.
 
@@ -99,6 +99,38 @@ Theorem C16_set_selection_refines : forall s E o Ea a sl,
   end.
 Proof. exact set_selection_spec. Qed.
 Print Assumptions C16_set_selection_refines.
+
+(* copy(keep_fields): the copy holds exactly the kept columns of the origin (same values,
+   dtypes, order) in locations that did not exist before. *)
+Theorem C16_copy_refines : forall s E a keep s' o',
+  repr s E a -> eqlen E a -> ctor_from s a keep [] [] = (s', Some o', Done) ->
+  repr s' E o' /\ names_of o' = filter (keepb keep) (names_of a)
+  /\ (names_of o' <> [] -> olen o' = olen a) /\ oidx o' = None
+  /\ (forall l, In l (obj_locs o') -> (length s <= l)%nat)
+  /\ exists ext, s' = s ++ ext.
+Proof. exact copy_refines. Qed.
+Print Assumptions C16_copy_refines.
+
+(* get_selection: ONE position list (from the index array or mask) is applied to all
+   columns; the result is the plain table of the selected rows, dtypes kept, in fresh locations. *)
+Theorem C16_select_refines : forall s E a sl s' o',
+  repr s E a -> eqlen E a -> get_selection s a sl = (s', Some o', Done) -> names_of a <> [] ->
+  exists E' ps, repr s' E' o' /\ names_of o' = names_of a /\ sel_pos (olen a) sl = Ok ps
+    /\ olen o' = Z.of_nat (length ps) /\ oidx o' = None
+    /\ (forall k, In k (names_of a) -> bdt (E' k) = bdt (E k) /\ gather (bdata (E k)) ps = Some (bdata (E' k)))
+    /\ abs E' (names_of a) (length ps) = t_take (abs E (names_of a) (Z.to_nat (olen a))) ps
+    /\ (forall l, In l (obj_locs o') -> (length s <= l)%nat).
+Proof. exact select_refines. Qed.
+Print Assumptions C16_select_refines.
+
+(* a raising remove_field / append_field / __setitem__ / set_field_dtype leaves the table as it was *)
+Theorem C16_failed_simple_ops_unchanged : forall s E o, repr s E o ->
+  (forall n e s' o', remove_field s o n = ((s', o'), Raised e) -> s' = s /\ o' = o)
+  /\ (forall n b e s' o', append_field (s ++ [b]) o n (length s) = ((s', o'), Raised e) -> s' = s ++ [b] /\ o' = o)
+  /\ (forall n b e s' o', setitem (s ++ [b]) o n (length s) = ((s', o'), Raised e) -> s' = s ++ [b] /\ o' = o)
+  /\ (forall n dt e s' o', set_field_dtype s o n dt = ((s', o'), Raised e) -> s' = s /\ o' = o).
+Proof. exact failed_simple_ops_unchanged. Qed.
+Print Assumptions C16_failed_simple_ops_unchanged.
 
 (* non-vacuity: a concrete history (construct, sort, self-append, indices, select, assign the
    selection back, copy, rename with a swap, failing append) runs without Stuck, satisfies
